@@ -169,7 +169,7 @@ def run(tier, seed):
     t0 = time.time()
     bins = {k: build.build(k)["vdriver"] for k in ("dbg", "rel")}
     chains = ["".join(c) for n in range(2, 6) for c in itertools.product("KCF", repeat=n)]
-    reps, ncomp = (3, 6000) if tier == "quick" else (60, 300000)
+    reps, ncomp = (6, 18000) if tier == "quick" else (60, 300000)
     payloads = [{"seed": seed, "shard": i, "chains": chains[i::NCPU], "reps": reps, "n_compound": ncomp // NCPU, "bin": bins["dbg"], "kind": "dbg"} for i in range(NCPU)]
     if tier == "thorough":
         payloads += [{"seed": seed, "shard": 100 + i, "chains": chains[i::NCPU], "reps": 10, "n_compound": ncomp // NCPU // 5, "bin": bins["rel"], "kind": "rel"} for i in range(NCPU)]
